@@ -1112,6 +1112,9 @@ class PPatternGeneratorAction(Pattern):
         return ("PPatternGeneratorAction(%s)" % repr(self.fn))
 
     def __next__(self):
+        if self.pattern is None:
+            # the generator function has declined to supply another pattern: stay exhausted
+            raise StopIteration
         try:
             return next(self.pattern)
         except StopIteration:
